@@ -1,3 +1,4 @@
+import Ucan.Lemmas.Base64
 import Ucan.Lemmas.Container
 import Ucan.Props.C08
 /-!
@@ -186,5 +187,37 @@ theorem C17_cbor_roundtrip {T : Type} (unsealFn : Bytes → Option (Bytes × T))
     | cons d ds ih => simp [List.mapM_cons, bytesOf, ih]
   simp only [ne_eq, not_true_eq_false, if_false, hm]
   exact addTokens_complete unsealFn sealed hu
+
+/-- C17 (CAR/base64): the base64 variant reads back exactly what the CAR variant does — `Base64.decode_encode` -/
+theorem C17_carb64_exact {T : Type} (headerOk : Bytes → Bool) (hashOk : Bytes → Bytes → Bool)
+    (unsealFn : Bytes → Option (Bytes × T)) (header : Bytes) (bs : List Block)
+    (hh : headerOk header = true) (h0 : header ≠ []) (hmax : header.length ≤ maxSection)
+    (hw : ∀ b ∈ bs, WFBlock hashOk b) (hu : ∀ b ∈ bs, (unsealFn b.data).isSome) :
+    ∃ es, fromCarBase64 headerOk hashOk unsealFn .eof (toCarBase64 header bs) = .ok es ∧
+      (bs.map (fun b => unsealFn b.data)) = es.map some := by
+  unfold fromCarBase64 toCarBase64
+  rw [Base64.decode_encode]
+  exact C17_car_exact headerOk hashOk unsealFn header bs hh h0 hmax hw hu
+
+/-- C17 (CBOR/base64) -/
+theorem C17_cborb64_roundtrip {T : Type} (unsealFn : Bytes → Option (Bytes × T)) (sealed : List Bytes)
+    (hwf : Cbor.WF (.map [(versionKey, .list (sealed.map .bytes))])) (hu : ∀ d ∈ sealed, (unsealFn d).isSome) :
+    ∃ es, fromCborBase64 unsealFn .eof (toCborBase64 sealed) = .ok es ∧ sealed.map unsealFn = es.map some := by
+  unfold fromCborBase64 toCborBase64
+  rw [Base64.decode_encode]
+  exact C17_cbor_roundtrip unsealFn sealed hwf hu
+
+/-- the bytes variant and the base64 variant of a reader agree on every container text the base64 writer produces -/
+theorem C17_base64_variant_agrees {T : Type} (headerOk : Bytes → Bool) (hashOk : Bytes → Bytes → Bool)
+    (unsealFn : Bytes → Option (Bytes × T)) (e : Ending) (raw : Bytes) :
+    fromCarBase64 headerOk hashOk unsealFn e (Base64.encode raw) = fromCar headerOk hashOk unsealFn e raw ∧
+      fromCborBase64 unsealFn e (Base64.encode raw) = fromCbor unsealFn e raw := by
+  simp [fromCarBase64, fromCborBase64, Base64.decode_encode]
+
+/-- text that is not base64 is refused by both base64 readers -/
+theorem C17_not_base64_refused {T : Type} (headerOk : Bytes → Bool) (hashOk : Bytes → Bytes → Bool)
+    (unsealFn : Bytes → Option (Bytes × T)) (e : Ending) (b : Bytes) (h : Base64.decode b = none) :
+    fromCarBase64 headerOk hashOk unsealFn e b = .error .base64 ∧ fromCborBase64 unsealFn e b = .error .base64 := by
+  simp [fromCarBase64, fromCborBase64, h]
 
 end Ucan.Container
